@@ -145,7 +145,7 @@ def mg(field, key, ctx):
     return ('mapget', ('field', P, field), ctx.prayer_key(key))
 
 
-def check(ctx, rep, rule):
+def check(ctx, rep, rule, entry=True):
     r = analyse(ctx)
     eng = r['eng']
     rep.floor('pipeline reruns inside the Imsaak builder', len(r['pcalls']), 2)
@@ -250,3 +250,30 @@ def check(ctx, rep, rule):
         if okk and oks:
             n_ok += 1
     rep.floor('Imsaak conversions', n_ok, 1)
+    if not entry:
+        return
+    # the entry of the result: what the day's computation stores under Imsaak is the builder's value itself - anything applied to
+    # it afterwards (a clamp against another clock time, an offset) works on a finished time of day and not on the angle
+    from . import c07 as _c07
+    ib = r['builder']
+    eng2 = ctx.engine(opaque_roles=('normalisers', 'eph_ctors'))
+    eng2.opaque.add(ib)
+    pl = ctx.role('policy_layer')
+    eng2.opaque.add(pl)
+    dt = ctx.role('dt')
+    tree2 = eng2.call_entry(dt, eng2.sym_args(dt))
+    n_e = 0
+    for st in E.leaves_of(tree2):
+        res = st.ret
+        if not (isinstance(res, tuple) and res and res[0] == 'map'):
+            rep.ob(rule, 'imsaak:entry-is-builder-value', None, f'result of the day\'s computation is {show(res, maxd=2)[:80]}')
+            continue
+        for k, v in res[2]:
+            if k[0] == 'enum' and k[2] == 'Imsaak':
+                n_e += 1
+                pv = eng2.purify(st, v)
+                okv = isinstance(pv, tuple) and pv and pv[0] == 'app' and pv[1] == ib
+                rep.ob(rule, 'imsaak:entry-is-builder-value', okv,
+                       'the Imsaak entry is the builder\'s value, unmodified' if okv else
+                       f'the Imsaak entry is {show(pv, maxd=4)[:160]}: the builder\'s value is changed after it was computed')
+    rep.floor('Imsaak entries of the day\'s result', n_e, 1)
